@@ -53,6 +53,31 @@ func CloneBlock(b types.Block) types.Block {
 	return out
 }
 
+// WireBlock returns b as a peer receives it: decoded from its own block encoding (v2 blocks in multiproof form; the
+// payout of a v1 revision arrives as the not-transmitted sentinel). ok=false if the encoding does not decode.
+func WireBlock(b types.Block) (out types.Block, ok bool) {
+	defer func() {
+		if recover() != nil {
+			ok = false
+		}
+	}()
+	var buf bytes.Buffer
+	e := types.NewEncoder(&buf)
+	if b.V2 != nil {
+		types.V2Block(b).EncodeTo(e)
+	} else {
+		types.V1Block(b).EncodeTo(e)
+	}
+	e.Flush()
+	d := types.NewBufDecoder(buf.Bytes())
+	if b.V2 != nil {
+		(*types.V2Block)(&out).DecodeFrom(d)
+	} else {
+		(*types.V1Block)(&out).DecodeFrom(d)
+	}
+	return out, d.Err() == nil
+}
+
 // TryVariant re-seals the variant block (payout = reward + fees, v2 height and
 // commitment, proof of work) on the tip, rebuilds its supplement from the
 // store and returns the verdict of the real ValidateBlock. The store must be
